@@ -914,3 +914,6 @@ V('c06-field-from-unpadded-text', 'C06', 'C06.R11',
 V('c03-array-items-generic', 'C03', 'C03.R3b',
   ('pywbem/_cim_obj.py', "            else:\n                array_xml.append(_cim_xml.VALUE(atomic_to_cim_xml(v)))\n        value_xml = _cim_xml.VALUE_ARRAY(array_xml)", "            else:\n                array_xml.append(tocimxml(v))\n        value_xml = _cim_xml.VALUE_ARRAY(array_xml)"),
   'child-sequence')
+V('c02-huge-hex-in-message', 'C02', 'C02.R11',
+  ('pywbem/_tupleparse.py', "                        data, cimtype, exc),", "                        value, cimtype, exc),"),
+  'unbounded-int-text')
